@@ -138,6 +138,13 @@ def expected_validator(p: dict) -> Any:
             base = ("instance_of", float)
     elif t["kind"] == "stringLiteral":
         return ("in", (t["value"],))
+    elif t["kind"] == "or" and len(t["items"]) == 2 and all(i["kind"] == "base" for i in t["items"]):
+        # `integer | null`, `uinteger | null`: an integer property all the same - its range holds whenever it is not null (C11)
+        names = sorted(i["name"] for i in t["items"])
+        if names == ["integer", "null"]:
+            return ("optional", ("fn", "validators", "integer_validator"))
+        if names == ["null", "uinteger"]:
+            return ("optional", ("fn", "validators", "uinteger_validator"))
     if base is None:
         return None
     return ("optional", base) if p.get("optional") else base
